@@ -292,6 +292,7 @@ def run (caseToks impl : List String) : String :=
   | ["h2set", setting, hdr, body] => MosnVerif.Drive.C08Set.h2set setting hdr body impl
   | ["mat", name, bytes] => MosnVerif.Drive.C08Chk.mat name bytes impl
   | ["h2pay", ty, flags, sid, payload] => MosnVerif.Drive.C08Chk.h2pay ty flags sid payload impl
+  | ["h2hl", limit, fields] => MosnVerif.Drive.C08Chk.h2hl limit fields impl
   | ["disp", proto, bytes] => disp proto bytes impl
   | ["pool", api, st] => pool api st impl
   | ["dmeta", listener, kinds, nargs, _] => MosnVerif.Drive.C08Dubbo.dmeta listener kinds nargs impl
